@@ -26,7 +26,7 @@ from typing import Any
 from sim import histsim, kit, project, runner
 
 PROP = "C04"
-FAMILY = {"seq": 320, "par": 64}  # finite scenario families (members are independent of VERIF_SEED)
+FAMILY = {"seq": 128, "par": 24}  # finite scenario families (members are independent of VERIF_SEED)
 MUTATING = ("write", "remove", "commit", "commit_path")
 
 
